@@ -224,6 +224,7 @@ fn budget(prop: &str, tier: &str, seed: u64, scale: f64) -> Budget {
             sweeps.push(sweeps::margin_symbols("C08", seed));
             sweeps.push(sweeps::c08_adjacent_fixed_pairs(seed));
             sweeps.push(sweeps::c08_far_fixed_pairs(seed));
+            sweeps.push(sweeps::c08_wrong_module_totals(seed));
             sweeps.push(sweeps::c08_surplus_codewords(seed));
         }
         _ => {
